@@ -12,9 +12,62 @@ fn ints<T: Copy + Into<i64>>(v: &[T]) -> Value {
 }
 
 /// decodes `stream` with one reader front-end; returns (ret, samples, message)
+/// A byte order of the caller's own (the `Endianness` trait is public and not sealed): RIFF WAVE's - one-byte samples are unsigned
+/// offset binary, wider ones little-endian.  The byte readers / writers must go through the trait for every width.
+#[derive(Clone, Copy)]
+pub struct WaveOrder;
+impl flac_codec::byteorder::Endianness for WaveOrder {
+    fn i8_to_bytes(s: i8) -> [u8; 1] {
+        [(s as u8) ^ 0x80]
+    }
+    fn i16_to_bytes(s: i16) -> [u8; 2] {
+        s.to_le_bytes()
+    }
+    fn i24_to_bytes(s: i32) -> [u8; 3] {
+        let b = s.to_le_bytes();
+        [b[0], b[1], b[2]]
+    }
+    fn i32_to_bytes(s: i32) -> [u8; 4] {
+        s.to_le_bytes()
+    }
+    fn bytes_to_i8(b: [u8; 1]) -> i8 {
+        (b[0] ^ 0x80) as i8
+    }
+    fn bytes_to_i16(b: [u8; 2]) -> i16 {
+        i16::from_le_bytes(b)
+    }
+    fn bytes_to_i24(b: [u8; 3]) -> i32 {
+        i32::from_le_bytes([0, b[0], b[1], b[2]]) >> 8
+    }
+    fn bytes_to_i32(b: [u8; 4]) -> i32 {
+        i32::from_le_bytes(b)
+    }
+    fn bytes_to_be(buf: &mut [u8], bytes_per_sample: usize) {
+        if bytes_per_sample == 1 {
+            buf.iter_mut().for_each(|b| *b ^= 0x80);
+        } else {
+            buf.chunks_exact_mut(bytes_per_sample).for_each(|c| c.reverse());
+        }
+    }
+    fn bytes_to_le(buf: &mut [u8], bytes_per_sample: usize) {
+        if bytes_per_sample == 1 {
+            buf.iter_mut().for_each(|b| *b ^= 0x80);
+        }
+    }
+}
+
 pub fn decode_with(reader: &str, stream: &[u8], bps: u32) -> (String, Vec<i32>, String) {
     let r = catch(|| -> Result<Vec<i32>, String> {
         match reader {
+            "byte-wave" => {
+                let mut r: FlacByteReader<_, WaveOrder> = FlacByteReader::new(Cursor::new(stream)).map_err(|e| e.to_string())?;
+                let mut v = vec![];
+                r.read_to_end(&mut v).map_err(|e| e.to_string())?;
+                if bps <= 8 {
+                    v.iter_mut().for_each(|b| *b ^= 0x80);
+                }
+                Ok(bytes_to_samples(&v, bps, false))
+            }
             "byte-le" => {
                 let mut r: FlacByteReader<_, LittleEndian> = FlacByteReader::new(Cursor::new(stream)).map_err(|e| e.to_string())?;
                 let mut v = vec![];
@@ -71,7 +124,7 @@ pub fn decode_with(reader: &str, stream: &[u8], bps: u32) -> (String, Vec<i32>, 
     }
 }
 
-pub const READERS: &[&str] = &["byte-le", "byte-be", "sample", "iter", "channel"];
+pub const READERS: &[&str] = &["byte-le", "byte-be", "byte-wave", "sample", "iter", "channel"];
 
 pub fn run(job: &Value, t: &mut Trace) -> usize {
     let mut runs = 0;
